@@ -31,9 +31,68 @@ fn rank(t: &T) -> u8 { match t.kind() { TermKind::BlankNode => 0, TermKind::Iri 
 fn h<X: Term + ?Sized>(t: &X) -> u64 { let mut s = DefaultHasher::new(); t.hash(&mut s); s.finish() }
 fn fail(what: String) -> ! { println!("{{\"mismatch\":{:?}}}", what); std::process::exit(1) }
 
+/// every provided way of converting / copying a term into another provided term type yields an equal term
+/// (same kind, eq both ways, cmp Equal, same hash), also for variables and for terms nested in quoted triples
+fn conversions(p: &[T]) -> u64 {
+    use sophia_api::term::FromTerm;
+    use sophia_term::{ArcStrStash, ArcTerm, RcStrStash, RcTerm};
+    let mut n = 0u64;
+    fn same<A: Term + std::fmt::Debug, B: Term + std::fmt::Debug>(how: &str, a: &A, b: &B) {
+        let ok = a.kind() == b.kind() && Term::eq(a, b.borrow_term()) && Term::eq(b, a.borrow_term()) && Term::cmp(a, b.borrow_term()) == Ordering::Equal && h(a) == h(b);
+        if !ok { fail(format!("{}: {:?} became {:?}", how, a, b)); }
+    }
+    let mut extra: Vec<T> = p.to_vec();
+    // quoted triples holding a variable / a blank node with the same name / an upper-case tag, nested twice
+    let var = SimpleTerm::Variable(VarName::new_unchecked("a".into()));
+    let bn = SimpleTerm::BlankNode(BnodeId::new_unchecked("a".into()));
+    let q = SimpleTerm::Triple(Box::new([var.clone(), iri("x:p"), bn.clone()]));
+    let qq = SimpleTerm::Triple(Box::new([q.clone(), iri("x:p"), SimpleTerm::LiteralLanguage("a".into(), LanguageTag::new_unchecked("EN-Us".into()))]));
+    extra.extend([q, qq, SimpleTerm::LiteralDatatype("a".into(), IriRef::new_unchecked("http://www.w3.org/1999/02/22-rdf-syntax-ns#langString".into()))]);
+    for t in &extra {
+        n += 1;
+        let arc = ArcTerm::from_term(t.borrow_term());
+        let rc = RcTerm::from_term(t.borrow_term());
+        same("ArcTerm::from_term", t, &arc);
+        same("RcTerm::from_term", t, &rc);
+        same("ArcTerm::as_simple", t, &arc.as_simple());
+        same("RcTerm::as_simple", t, &rc.as_simple());
+        same("ArcTerm::borrow_term", t, &arc.borrow_term());
+        same("ArcTerm -> SimpleTerm (into_term)", t, &arc.clone().into_term::<T>());
+        same("RcTerm -> SimpleTerm (into_term)", t, &rc.clone().into_term::<T>());
+        same("ArcTerm -> RcTerm (into_term)", t, &arc.clone().into_term::<RcTerm>());
+        same("RcTerm -> ArcTerm (from_term of a reference)", t, &ArcTerm::from_term(&rc));
+        same("SimpleTerm::from_term_ref(ArcTerm)", t, &SimpleTerm::from_term_ref(&arc));
+        same("SimpleTerm::from_term_ref(SimpleTerm)", t, &SimpleTerm::from_term_ref(t));
+        same("SimpleTerm::as_simple", t, &t.as_simple());
+        same("try_into_term::<SimpleTerm>", t, &t.borrow_term().try_into_term::<T>().unwrap());
+        let mut s1 = ArcStrStash::new();
+        same("ArcStrStash::copy_term(SimpleTerm)", t, &s1.copy_term(t.borrow_term()));
+        same("ArcStrStash::copy_term(ArcTerm)", t, &s1.copy_term(arc.clone()));
+        same("ArcStrStash::copy_term(&RcTerm)", t, &s1.copy_term(&rc));
+        let mut s2 = RcStrStash::new();
+        same("RcStrStash::copy_term(RcTerm)", t, &s2.copy_term(rc.clone()));
+        same("RcStrStash::copy_term(ArcTerm)", t, &s2.copy_term(arc.clone()));
+        // components seen through the copies
+        if let Some(tr) = arc.triple() { let orig = t.triple().unwrap(); for i in 0..3 { same("component of ArcTerm::triple()", &orig[i], &tr[i]); } }
+        if let Some(tr) = arc.clone().to_triple() { let orig = t.triple().unwrap(); for i in 0..3 { same("component of ArcTerm::to_triple()", &orig[i], &tr[i]); } }
+        let mut atoms_o: Vec<String> = t.atoms().map(|x| format!("{:?}", x.as_simple())).collect();
+        let mut atoms_c: Vec<String> = arc.atoms().map(|x| format!("{:?}", x.as_simple())).collect();
+        atoms_o.sort(); atoms_c.sort();
+        if atoms_o != atoms_c { fail(format!("atoms() of the ArcTerm copy differ: {:?} vs {:?}", atoms_o, atoms_c)); }
+    }
+    // graph names
+    for t in &extra {
+        let g: sophia_api::term::GraphName<&T> = Some(t);
+        let g2: sophia_api::term::GraphName<ArcTerm> = g.map(|x| ArcTerm::from_term(x.borrow_term()));
+        if !sophia_api::term::graph_name_eq(g, g2.as_ref().map(|x| x.borrow_term())) { fail(format!("graph_name_eq false after copy: {:?}", t)); }
+        if sophia_api::term::graph_name_eq(g, None::<&T>) { fail(format!("graph_name_eq(Some, None) true: {:?}", t)); }
+    }
+    n
+}
+
 fn main() {
     let p = pool();
-    let mut n = 0u64;
+    let mut n = conversions(&p);
     for a in &p { for b in &p {
         n += 1;
         let eq = Term::eq(a, b);
